@@ -2,12 +2,12 @@ package sim
 
 import (
 	"bytes"
-	"sync"
 	"context"
 	"fmt"
 	"math"
 	"sort"
 	"strings"
+	"sync"
 	"time"
 
 	"github.com/tikv/client-go/v2/config/retry"
@@ -89,6 +89,14 @@ func (s *Step) String() string {
 		fmt.Fprintf(&b, "(%s,ret=%v,chk=%v,onlyIfExists=%v,wait=%d)", strings.Join(s.Keys, ","), s.ReturnValues, s.CheckExistence, s.LockOnlyIfExists, s.WaitMs)
 	case "advance":
 		fmt.Fprintf(&b, "(%dms)", s.Ms)
+	case "expire":
+		fmt.Fprintf(&b, "(for client %d)", s.Client)
+	case "seq":
+		var sub []string
+		for _, x := range s.Sub {
+			sub = append(sub, x.String())
+		}
+		return "[" + strings.Join(sub, " ; ") + "]"
 	default:
 		if len(s.Keys) > 0 {
 			fmt.Fprintf(&b, "(%s)", strings.Join(s.Keys, ","))
@@ -121,8 +129,9 @@ type World struct {
 	active   int        // call id of the API call the actor is currently inside (0 = none)
 	ReadErrs int
 	// number of traced RPCs the last DrainArmed commit issued (synchronous + background)
-	LastCallRPCs int
-	Fail         func(format string, a ...any) // harness-level assertion failure (own-write reads etc.)
+	LastCallRPCs     int
+	LastCallSyncRPCs int                           // of which issued before Commit returned
+	Fail             func(format string, a ...any) // harness-level assertion failure (own-write reads etc.)
 }
 
 // NewWorld creates a world.
@@ -205,6 +214,9 @@ func (w *World) Exec(s *Step) {
 		for _, sub := range s.Sub {
 			w.Exec(sub)
 		}
+		return
+	case "expire":
+		w.Cl.ExpireFor(s.Client)
 		return
 	case "split":
 		w.Cl.SplitAt(s.Keys[0])
@@ -480,6 +492,7 @@ func (w *World) Exec(s *Step) {
 			t.CommitTS = txn.CommitTS()
 		}
 		if s.DrainArmed {
+			_, w.LastCallSyncRPCs = c.Net.Counts()
 			w.Cl.Drain(2*time.Millisecond, 3*time.Second)
 			_, w.LastCallRPCs = c.Net.Counts()
 		}
